@@ -5,7 +5,7 @@ H = 'checks.hC12'
 def plan(tier, seed):
     quick = tier == 'quick'
     names = ['sites5', 'multiline', 'column-zero', 'guards', 'replace-switch', 'string-structure', 'macro-chain',
-             'macro-chain-composite', 'inline-macro', 'recursive-macro']
+             'macro-chain-composite', 'inline-macro', 'recursive-macro', 'after-handled-macro-failure']
     jobs = [{'template': n} for n in names]
     fam = dict(name='render_error_sites', module=H, fn='H', jobs=jobs, timeout=600 if quick else 1800, vacuity=2,
                program_key='template',
